@@ -328,7 +328,7 @@ type emission struct {
 	// structs: the globals are built with a literal struct type of their own as content type, which the history
 	// names / fills after pointers to it exist (FieldEdits GlobalTypeName, GlobalTypeFill)
 	structs bool
-	t      *mbt.TLCResult
+	t       *mbt.TLCResult
 }
 
 // emitAll runs the transition generator for every configuration (TLC processes in
